@@ -111,6 +111,57 @@ def embeds_of(s, out=None):
     return out
 
 
+def hand_field(name, typ="int", **kw):
+    f = {"k": "f", "name": name, "type": typ, "new": False, "def": None, "tagskip": False, "get": False, "set": False,
+         "json": None, "hasdoc": False}
+    f.update(kw)
+    return f
+
+
+def hand_embed(decl, ptr=False):
+    return {"k": "e", "decl": decl, "ptr": ptr, "new": False, "pkg": None}
+
+
+def hand_struct(name, members, typedoc=None):
+    return {"name": name, "tparams": [], "typedoc": typedoc, "members": members}
+
+
+def build_new_pkg(listed, flags, star=False, extra_feats=()):
+    """package spec from the struct specs to list (in `-type` order) and the flags"""
+    getset = "-getset" in flags
+    js = "-json" in flags
+    gofile = "t.go"
+    src = newgen.render_file("cs", listed)
+    if star:
+        src = src.replace("package cs\n", "package cs\n\n//go:generate shoot new %s\n" % " ".join(flags + ["-type=*"]), 1)
+    by_name = {s["name"]: s for s in decl_order(listed)}
+    n = len(listed)
+    feats = {"new": 1, "types-%d" % n: 1}
+    for f in flags:
+        feats["flag" + f] = 1
+    for f in extra_feats:
+        feats[f] = 1
+    for s in listed:
+        for k in newgen.count_features(s):
+            feats[k] = 1
+        if s.get("typedoc"):
+            feats["typedoc"] = 1
+        if set(embeds_of(s)) & set(x["name"] for x in listed):
+            feats["cross-embed"] = 1
+
+    def model(order_names, mode="combined", disk=(), orig=None, leaks="today"):
+        p = [["cmd", "new"], ["leaks", leaks], ["flags"] + [f[1:] for f in flags if f in ("-getset", "-json")], ["mode", mode],
+             ["disk"] + list(disk), ["types"] + [ntype_sexp(by_name[nm], gofile, getset) for nm in order_names]]
+        if orig is not None:
+            p.append(["orig"] + [Q(x) for x in orig])
+        return p
+
+    return {"cmd": "new", "flags": list(flags), "files": {gofile: src}, "cwd": ".", "gofile": gofile,
+            "types": [s["name"] for s in listed], "all_types": [s["name"] for s in decl_order(listed)], "setup": [],
+            "model": model, "feats": feats, "star": star, "getset": getset, "json": js,
+            "embeds": {s["name"]: embeds_of(s) for s in decl_order(listed)}, "structs": by_name, "listed": listed}
+
+
 def gen_new_pkg(rng, force=None):
     force = force or {}
     g = newgen.NewGen(rng)
@@ -142,7 +193,6 @@ def gen_new_pkg(rng, force=None):
     # cross embeds between listed types (acyclic: only types of smaller rank), the -getset feature under test
     rank = list(range(n))
     rng.shuffle(rank)
-    cross = 0
     pc = force.get("cross", 0.5 if getset else 0.2)
     for i, s in enumerate(structs):
         for j, u in enumerate(structs):
@@ -153,10 +203,7 @@ def gen_new_pkg(rng, force=None):
                 if set(pascal_names(u)) & set(pascal_names(s)) or len(set(pascal_names(u))) != len(pascal_names(u)):
                     if rng.random() < 0.9:
                         continue
-                e = {"k": "e", "decl": u, "ptr": rng.random() < 0.4, "new": False, "pkg": None}
-                s["members"].insert(rng.randint(0, len(s["members"])), e)
-                cross += 1
-    gofile = "t.go"
+                s["members"].insert(rng.randint(0, len(s["members"])), hand_embed(u, rng.random() < 0.4))
     order = list(range(n))
     if force.get("deps_first", rng.random() < 0.7):
         order.sort(key=lambda i: rank[i])
@@ -164,32 +211,26 @@ def gen_new_pkg(rng, force=None):
         rng.shuffle(order)
     listed = [structs[i] for i in order]
     star = force.get("star", rng.random() < 0.35)
-    src = newgen.render_file("cs", listed)
-    if star:
-        src = src.replace("package cs\n", "package cs\n\n//go:generate shoot new %s\n" % " ".join(flags + ["-type=*"]), 1)
-    by_name = {s["name"]: s for s in decl_order(listed)}
-    feats = {"new": 1, "types-%d" % n: 1}
-    for f in flags:
-        feats["flag" + f] = 1
-    if cross:
-        feats["cross-embed"] = 1
-    for s in listed:
-        for k in newgen.count_features(s):
-            feats[k] = 1
-        if s.get("typedoc"):
-            feats["typedoc"] = 1
+    return build_new_pkg(listed, flags, star)
 
-    def model(order_names, mode="combined", disk=(), orig=None, leaks="today"):
-        p = [["cmd", "new"], ["leaks", leaks], ["flags"] + [f[1:] for f in flags if f in ("-getset", "-json")], ["mode", mode],
-             ["disk"] + list(disk), ["types"] + [ntype_sexp(by_name[nm], gofile, getset) for nm in order_names]]
-        if orig is not None:
-            p.append(["orig"] + [Q(x) for x in orig])
-        return p
 
-    return {"cmd": "new", "flags": flags, "files": {gofile: src}, "cwd": ".", "gofile": gofile,
-            "types": [s["name"] for s in listed], "all_types": [s["name"] for s in decl_order(listed)], "setup": [],
-            "model": model, "feats": feats, "star": star, "getset": getset, "json": js,
-            "embeds": {s["name"]: embeds_of(s) for s in decl_order(listed)}, "structs": by_name}
+def hand_new_pkgs():
+    """one hand-written package per finding region of `new` (feature stratification: every region is exercised on every run)"""
+    out = []
+    # F_hasNewLeak
+    a = hand_struct("Alpha", [hand_field("id", new=True), hand_field("name", "string")])
+    b = hand_struct("Beta", [hand_field("x"), hand_field("y", "string")])
+    out.append(build_new_pkg([a, b], [], extra_feats=["hand-hasNewLeak"]))
+    # F_getsetLeak
+    e = hand_struct("Echo", [hand_field("name", "string"), hand_field("age")])
+    a = hand_struct("Alpha", [hand_embed(e), hand_field("id")])
+    b = hand_struct("Beta", [hand_field("title", "string"), hand_field("name", "string", set=True), hand_field("age", get=True), hand_field("z")])
+    out.append(build_new_pkg([e, a, b], ["-getset", "-json"], extra_feats=["hand-getsetLeak"]))
+    # F_embedderFirst (the permuted list puts the embedded type first or last)
+    e = hand_struct("Echo", [hand_field("name", "string")])
+    a = hand_struct("Meta", [hand_embed(e), hand_field("id")])
+    out.append(build_new_pkg([a, e], ["-getset"], extra_feats=["hand-embedderFirst"]))
+    return out
 
 
 # ------------------------------------------------------------------------------------------------
@@ -235,6 +276,46 @@ def map_side(rng, fields, kind, typ):
     return src, side, True
 
 
+def build_map_pkg(rng, specs, extra_feats=()):
+    """specs: [(type name, src fields, src kind, dest fields, dest kind)] with kinds plain | new | new0"""
+    src_decls, dest_decls, sides, new_src, new_dest, kinds = [], [], {}, [], [], {}
+    for nm, sf, sk, df, dk in specs:
+        kinds[nm] = (sk, dk)
+        s_src, s_side, s_new = map_side(rng, sf, sk, nm)
+        d_src, d_side, d_new = map_side(rng, df, dk, nm)
+        src_decls.append(s_src)
+        dest_decls.append(d_src)
+        sides[nm] = (s_side, d_side)
+        if s_new:
+            new_src.append(nm)
+        if d_new:
+            new_dest.append(nm)
+    names = [x[0] for x in specs]
+    files = {"src/s.go": "package src\n\n" + "\n".join(src_decls), "dest/d.go": "package dest\n\n" + "\n".join(dest_decls)}
+    setup = []
+    # one process per type: `shoot new -type=A,B` leaks `hasNew` from A into B (finding F_hasNewLeak)
+    for nm in new_dest:
+        setup.append({"args": ["new", "-getset", "-type=" + nm], "cwd": "dest"})
+    for nm in new_src:
+        setup.append({"args": ["new", "-getset", "-type=" + nm], "cwd": "src"})
+    feats = {"map": 1, "types-%d" % len(names): 1}
+    for nm, (sk, dk) in kinds.items():
+        feats["src-" + sk] = 1
+        feats["dest-" + dk] = 1
+    for f in extra_feats:
+        feats[f] = 1
+
+    def model(order_names, mode="combined", disk=(), orig=None, leaks="today"):
+        p = [["cmd", "map"], ["leaks", leaks], ["mode", mode],
+             ["types"] + [["T", Q(nm), ["src"] + sides[nm][0], ["dest"] + sides[nm][1]] for nm in order_names]]
+        if orig is not None:
+            p.append(["orig"] + [Q(x) for x in orig])
+        return p
+
+    return {"cmd": "map", "flags": ["-path=../dest"], "files": files, "cwd": "src", "gofile": "s.go", "types": names,
+            "all_types": names, "setup": setup, "model": model, "feats": feats, "star": False, "kinds": kinds}
+
+
 def gen_map_pkg(rng, force=None):
     force = force or {}
     n = force.get("n") or rng.choice([2, 2, 3, 3, 4, 5])
@@ -242,8 +323,7 @@ def gen_map_pkg(rng, force=None):
     rng.shuffle(names)
     names = names[:n]
     p_new = force.get("p_new", rng.choice([0.0, 0.3, 0.5]))
-    src_decls, dest_decls, sides, new_src, new_dest = [], [], {}, [], []
-    kinds = {}
+    specs = []
     for nm in names:
         k = rng.randint(2, 4)
         pool = list(MAP_FIELDS)
@@ -258,37 +338,22 @@ def gen_map_pkg(rng, force=None):
         sk = "new" if rng.random() < p_new * 0.6 else "plain"
         r = rng.random()
         dk = "new" if r < p_new else ("new0" if r < p_new * 1.4 else "plain")
-        kinds[nm] = (sk, dk)
-        s_src, s_side, s_new = map_side(rng, sf, sk, nm)
-        d_src, d_side, d_new = map_side(rng, df, dk, nm)
-        src_decls.append(s_src)
-        dest_decls.append(d_src)
-        sides[nm] = (s_side, d_side)
-        if s_new:
-            new_src.append(nm)
-        if d_new:
-            new_dest.append(nm)
-    files = {"src/s.go": "package src\n\n" + "\n".join(src_decls), "dest/d.go": "package dest\n\n" + "\n".join(dest_decls)}
-    setup = []
-    # one process per type: `shoot new -type=A,B` leaks `hasNew` from A into B (finding F_hasNewLeak)
-    for nm in new_dest:
-        setup.append({"args": ["new", "-getset", "-type=" + nm], "cwd": "dest"})
-    for nm in new_src:
-        setup.append({"args": ["new", "-getset", "-type=" + nm], "cwd": "src"})
-    feats = {"map": 1, "types-%d" % n: 1}
-    for nm, (sk, dk) in kinds.items():
-        feats["src-" + sk] = 1
-        feats["dest-" + dk] = 1
+        specs.append((nm, sf, sk, df, dk))
+    return build_map_pkg(rng, specs)
 
-    def model(order_names, mode="combined", disk=(), orig=None, leaks="today"):
-        p = [["cmd", "map"], ["leaks", leaks], ["mode", mode],
-             ["types"] + [["T", Q(nm), ["src"] + sides[nm][0], ["dest"] + sides[nm][1]] for nm in order_names]]
-        if orig is not None:
-            p.append(["orig"] + [Q(x) for x in orig])
-        return p
 
-    return {"cmd": "map", "flags": ["-path=../dest"], "files": files, "cwd": "src", "gofile": "s.go", "types": names,
-            "all_types": names, "setup": setup, "model": model, "feats": feats, "star": False, "kinds": kinds}
+def hand_map_pkgs(rng):
+    out = []
+    # F_mapCtorLeak: destination of the first pair is a shoot-new type with constructor, the second pair is plain
+    out.append(build_map_pkg(rng, [("Alpha", ["ID", "Name"], "plain", ["ID", "Name"], "new"),
+                                   ("Beta", ["ID", "Name", "Note"], "plain", ["ID", "Name", "Note"], "plain")], ["hand-mapCtorLeak"]))
+    # F_mapAccLeak: a shoot-new destination without usable constructor leaves only its accessors behind
+    out.append(build_map_pkg(rng, [("Alpha", ["ID", "Kind"], "plain", ["ID", "Kind"], "new0"),
+                                   ("Beta", ["ID", "Kind"], "plain", ["ID", "Kind"], "plain")], ["hand-mapAccLeak"]))
+    # the same on the source side
+    out.append(build_map_pkg(rng, [("Alpha", ["ID", "Name"], "new", ["ID", "Name"], "plain"),
+                                   ("Beta", ["ID", "Name"], "plain", ["ID", "Name"], "plain")], ["hand-mapSrcLeak"]))
+    return out
 
 
 # ------------------------------------------------------------------------------------------------
